@@ -35,6 +35,7 @@ type Case struct {
 	Parse  bool   `json:"parse"`
 	Run    bool   `json:"run"`
 	Budget int    `json:"budget_ms"`
+	RunBud int    `json:"run_budget_ms"`
 }
 
 type Obs struct {
@@ -266,6 +267,10 @@ func observe(c Case) Obs {
 	if !c.Run || r.state != "ok" {
 		return o
 	}
+	runBudget := budget
+	if c.RunBud > 0 {
+		runBudget = time.Duration(c.RunBud) * time.Millisecond
+	}
 	type rr struct {
 		run, rpanic string
 		rline       int
@@ -275,7 +280,7 @@ func observe(c Case) Obs {
 	select {
 	case x := <-rch:
 		o.RunRes, o.Rpanic, o.Rline = x.run, x.rpanic, x.rline
-	case <-time.After(budget):
+	case <-time.After(runBudget):
 		o.RunRes = "timeout" // a mutated program may loop: not a front-end failure, but the goroutine is lost
 		o.exit = true
 	}
